@@ -41,6 +41,11 @@ def gen_plan(rng, tier, idx, opts):
         if r < 0.31 and r >= 0.27:
             ops.append({"op": "plot", "seed": rng.randrange(1 << 30)})
             continue
+        if r < 0.36 and r >= 0.34:
+            # ANOTHER model object of the same class, with other parameters, is built and queried in between (two cells, two
+            # bands): what it does must not show in the object under test (class-level or module-level state)
+            ops.append({"op": "other_model", "seed": rng.randrange(1 << 30)})
+            continue
         if r < 0.34 and r >= 0.31:
             # the model object is copied (copy.copy / copy.deepcopy); one of the two is used further, the other must keep
             # answering for ITS parameters
@@ -414,6 +419,26 @@ def execute(plan):
                     obj.handle_small_distances_bool = bool(op["v"])
                     flags["policy"] = bool(op["v"])
                     last.update(op="policy", rejected=False)
+                elif o == "other_model":
+                    rs2 = np.random.RandomState(op["seed"])
+                    cfg2 = dict(plan["cfg"])
+                    if "n" in cfg2:
+                        cfg2["n"] = float(np.round(rs2.uniform(1.6, 4.8), 3))
+                    if "C" in cfg2:
+                        cfg2["C"] = float(np.round(rs2.uniform(20, 140), 2))
+                    if "fc" in cfg2:
+                        cfg2["fc"] = float(np.round(rs2.uniform(600, 5900), 1))
+                    o2 = build(dict(plan, cfg=cfg2))
+                    if model == "hata":
+                        o2.fc = float(np.round(rs2.uniform(150, 1500), 1))
+                        o2.hbs = float(np.round(rs2.uniform(30, 200), 1))
+                        o2.area_type = ["open", "suburban", "medium city", "large city"][int(rs2.randint(4))]
+                    o2.handle_small_distances_bool = True
+                    dq = 10 ** rs2.uniform(0.1, 1.2, size=5) if model != "metis" else 10 ** rs2.uniform(1, 3, size=5)
+                    o2.calc_path_loss_dB(dq)
+                    o2.calc_path_loss(float(dq[0]))
+                    last.update(op="other_model", rejected=False)
+                    bump(res["probes"], "another_model_object_used_in_between")
                 elif o == "fork":
                     if shadow["on"] or others:
                         continue
